@@ -18,7 +18,8 @@
      "resetbleed"  json_tokener_reset leaves high_surrogate / ucs_char / st_pos (D04a)
      "sq_name"     strict mode accepts a single-quoted member name (D16a)
      "leadzero"    strict mode's leading-zero rule only covers positive non-zero integers (D16b)
-     "name_nul"    member names are cut at an escaped NUL (D01a; kept as a known finding) *)
+     "name_nul"    member names are cut at an escaped NUL (D01a; kept as a known finding)
+   and two pure mutants for the depth check: "depth_off_array", "depth_off_object". *)
 EXTENDS Naturals, Integers, Sequences, FiniteSets, TLC, Text, Wide
 CONSTANTS AsFound
 
@@ -235,7 +236,7 @@ Redo(tok, c, fuel) ==
         IF c = 93
         THEN IF st = "array_after_sep" /\ strict THEN E("unexpected")
              ELSE A(SetSt(tok, "eatws", "finish"))
-        ELSE IF Depth(tok) >= tok.maxd THEN E("depth")
+        ELSE IF Depth(tok) >= tok.maxd + (IF "depth_off_array" \in AsFound THEN 1 ELSE 0) THEN E("depth")
              ELSE LET t1 == SetSt1(tok, "array_add") IN
                   Redo([t1 EXCEPT !.stack = Append(t1.stack, Level0)], c, fuel - 1)
   [] st = "array_add" ->
@@ -254,7 +255,7 @@ Redo(tok, c, fuel) ==
   [] st = "object_field_end" ->
         IF c = 58 THEN A(SetSt(tok, "eatws", "object_value")) ELSE E("key_sep")
   [] st = "object_value" ->
-        IF Depth(tok) >= tok.maxd THEN E("depth")
+        IF Depth(tok) >= tok.maxd + (IF "depth_off_object" \in AsFound THEN 1 ELSE 0) THEN E("depth")
         ELSE LET t1 == SetSt1(tok, "object_value_add") IN
              Redo([t1 EXCEPT !.stack = Append(t1.stack, Level0)], c, fuel - 1)
   [] st = "object_value_add" ->
